@@ -5,6 +5,8 @@ import (
 	"encoding/json"
 	"flag"
 	"fmt"
+	"runtime"
+	"strings"
 	"sync"
 	"time"
 
@@ -292,6 +294,66 @@ func runUDPErrHandler(idx int) (*udpTrace, error) {
 	return &udpTrace{ID: fmt.Sprintf("udpgate:errhandler:%d", idx), Complete: true, Scen: map[string]any{"schedule": "handler returns an error, later datagrams"}, Hist: rec.Snapshot()}, nil
 }
 
+// runUDPLateEnd: shutdown while handlers are still running. n clients each get an association whose handler has read
+// its datagram and is held just before it returns; the socket is closed, the server loop returns; only then the
+// handlers finish (their connections are closed by Server.handle, which notifies a loop that is no longer there).
+// Nothing of that may crash the process, and the handlers must come to an end.
+func runUDPLateEnd(idx, n int) (*udpTrace, error) {
+	rec := vh.NewRecorder(nil)
+	pc := vh.NewFakePC(rec)
+	release := make(chan struct{})
+	held := make(chan int, n)
+	vh.UDPGate = func(point string, a int, client string) {
+		if point == "return" {
+			held <- a
+			<-release
+		}
+	}
+	defer func() { vh.UDPGate = nil }()
+	srv, cancel, err := udpServer(map[string]any{"handler": "verif_h", "k": "udp", "n": 1, "echo": true})
+	if err != nil {
+		return nil, err
+	}
+	defer cancel()
+	for c := 1; c <= n; c++ {
+		vh.RegisterRec(vh.ClientAddr(c).String(), rec)
+	}
+	loopDone := make(chan struct{})
+	go func() { layer4.VerifServePacket(srv, pc); close(loopDone) }()
+	for c := 1; c <= n; c++ {
+		pc.Inject(c, c, 64)
+	}
+	for k := 0; k < n; k++ {
+		select {
+		case <-held:
+		case <-time.After(3 * time.Second):
+			return &udpTrace{ID: fmt.Sprintf("udpgate:lateend:%d", idx), Complete: false, Scen: map[string]any{"schedule": "handlers outlive the loop"}, Hist: rec.Snapshot()}, nil
+		}
+	}
+	pc.Close()
+	select {
+	case <-loopDone:
+		rec.Add(vh.Ev{"e": "LoopEnd"})
+	case <-time.After(3 * time.Second):
+	}
+	before := countGoroutines("layer4.(*Server).handle")
+	close(release)
+	// every handler goroutine ends (a Close that blocks for ever on a notification nobody reads would keep it)
+	left := before
+	for k := 0; k < 300 && left > 0; k++ {
+		time.Sleep(10 * time.Millisecond)
+		left = countGoroutines("layer4.(*Server).handle")
+	}
+	rec.Add(vh.Ev{"e": "LateEnd", "handlers": before, "left": left})
+	return &udpTrace{ID: fmt.Sprintf("udpgate:lateend:%d", idx), Complete: true, Scen: map[string]any{"schedule": "handlers outlive the loop", "n": n}, Hist: rec.Snapshot()}, nil
+}
+
+func countGoroutines(frame string) int {
+	buf := make([]byte, 4<<20)
+	buf = buf[:runtime.Stack(buf, true)]
+	return strings.Count(string(buf), frame+"(")
+}
+
 // runUDPTwoStage: two routes over UDP. Route 1 matches the first datagram; its non-terminal handler reads two datagrams
 // (the second one with a blocking Read) and passes on; route 2 needs more data, so the matching deadline is set AGAIN
 // on the virtual connection. Later datagrams of the client and of another client must still be served.
@@ -419,6 +481,14 @@ func init() {
 		for i := 0; i < 3; i++ {
 			fmt.Printf("SCENARIO twostage %d\n", i)
 			tr, err := runUDPTwoStage(i)
+			if err != nil {
+				return err
+			}
+			lw.Write(tr)
+		}
+		for i, n := range []int{1, 3, 12} {
+			fmt.Printf("SCENARIO lateend %d\n", i)
+			tr, err := runUDPLateEnd(i, n)
 			if err != nil {
 				return err
 			}
